@@ -1,10 +1,10 @@
-(* C20/ProofsCall.v — a whole call: the request trace (limiter first, exactly one GET of the
+(* C20/ProofsCall.v — a whole call_c: the request trace (limiter first, exactly one GET of the
    closed-form URL, nothing when an option is invalid or Wait fails), the status chain
    regenerated from getFromAPI against the documented classes, NotFound, and the returned
-   elements against SpecApi.spec_result, for every call, limiter mode, status and body. *)
+   elements against SpecApi.spec_result, for every call_c, limiter mode, status and body. *)
 From Coq Require Import ZArith List String Ascii Bool Lia.
-From Verif Require Import C20.Syntax C20.Text C20.Types C20.Model C20.SpecApi
-  C20.ProofsText C20.ProofsUrl.
+From Verif Require Import C20.Syntax C20.Text C20.Types C20.Model C20.Closed C20.SpecApi
+  C20.ProofsText C20.ProofsFloat C20.ProofsUrl C20.ProofsSpec.
 From VerifGen Require Import GenOsmapi.
 Import ListNotations.
 Open Scope Z_scope.
@@ -126,7 +126,7 @@ Proof.
     + reflexivity.
 Qed.
 
-(* ---------- a whole call, unfolded ---------- *)
+(* ---------- a whole call_c, unfolded ---------- *)
 
 Definition request_event (cfg : str) (ep : endpoint) : event :=
   EvRequest "GET" (explicit_url cfg ep).
@@ -140,39 +140,39 @@ Definition spec_trace (cfg : str) (lim : limiter) (ep : endpoint) : list event :
 
 Lemma call_invalid cfg lim ep resp :
   options_valid ep = false ->
-  call cfg lim ep resp =
+  call_c cfg lim ep resp =
   {| o_trace := []; o_err := Some ""%string; o_data := None; o_panic := false; o_bad := false |}.
 Proof.
-  intros Hv. unfold call. rewrite (url_of_reject cfg ep Hv).
+  intros Hv. unfold call_c. rewrite (url_of_reject cfg ep Hv).
   destruct (find_method_some ep) as [m ->]. reflexivity.
 Qed.
 
 Lemma call_wait_fails cfg ep resp :
   options_valid ep = true ->
-  call cfg LimiterFails ep resp =
+  call_c cfg LimiterFails ep resp =
   {| o_trace := [EvWait]; o_err := Some ""%string; o_data := None; o_panic := false; o_bad := false |}.
 Proof.
-  intros Hv. unfold call. rewrite (url_of_explicit cfg ep Hv).
+  intros Hv. unfold call_c. rewrite (url_of_explicit cfg ep Hv).
   destruct (find_method_some ep) as [m ->]. reflexivity.
 Qed.
 
 Lemma call_non200 cfg lim ep resp :
   options_valid ep = true -> lim <> LimiterFails -> r_status resp <> 200 ->
-  call cfg lim ep resp =
+  call_c cfg lim ep resp =
   {| o_trace := spec_trace cfg lim ep; o_err := status_error (r_status resp); o_data := None;
      o_panic := false; o_bad := false |}.
 Proof.
-  intros Hv Hl Hs. unfold call. rewrite (url_of_explicit cfg ep Hv).
+  intros Hv Hl Hs. unfold call_c. rewrite (url_of_explicit cfg ep Hv).
   destruct (find_method_some ep) as [m ->].
   destruct (status_error (r_status resp)) as [t|] eqn:E.
-  - unfold get_from_api. rewrite E.
+  - unfold get_from_api_c. rewrite E.
     destruct lim; try congruence; reflexivity.
   - apply status_error_none in E. congruence.
 Qed.
 
 Lemma call_200 cfg lim ep resp :
   options_valid ep = true -> lim <> LimiterFails -> r_status resp = 200 ->
-  let o := call cfg lim ep resp in
+  let o := call_c cfg lim ep resp in
   o_trace o = spec_trace cfg lim ep /\ o_panic o = false /\ o_bad o = false /\
   match spec_result ep resp with
   | XData l => o_err o = None /\ o_data o = Some l
@@ -186,8 +186,8 @@ Proof.
   { unfold spec_result. cbn [r_status r_body Z.eqb Pos.eqb negb].
     intros c. destruct b; destruct (shape_of ep); try discriminate;
       try (destruct (count_kind _ _ =? 1); try discriminate); intros H; injection H; auto. }
-  unfold call. rewrite (url_of_explicit cfg ep Hv), Hm.
-  unfold get_from_api. cbn [r_status r_body].
+  unfold call_c. rewrite (url_of_explicit cfg ep Hv), Hm.
+  unfold get_from_api_c. cbn [r_status r_body].
   replace (status_error 200) with (@None string) by reflexivity.
   unfold result_of in Hsel.
   destruct (spec_result ep {| r_status := 200; r_body := b |}) as [l|c] eqn:Esp.
@@ -207,7 +207,7 @@ Lemma lim_cases (lim : limiter) : lim = LimiterFails \/ lim <> LimiterFails.
 Proof. destruct lim; [right|right|left]; congruence. Qed.
 
 Lemma call_trace cfg lim ep resp :
-  options_valid ep = true -> o_trace (call cfg lim ep resp) = spec_trace cfg lim ep.
+  options_valid ep = true -> o_trace (call_c cfg lim ep resp) = spec_trace cfg lim ep.
 Proof.
   intros Hv. destruct (lim_cases lim) as [->|Hl].
   - rewrite call_wait_fails by exact Hv. reflexivity.
@@ -217,7 +217,7 @@ Proof.
 Qed.
 
 Lemma call_covered cfg lim ep resp :
-  o_bad (call cfg lim ep resp) = false /\ o_panic (call cfg lim ep resp) = false.
+  o_bad (call_c cfg lim ep resp) = false /\ o_panic (call_c cfg lim ep resp) = false.
 Proof.
   destruct (options_valid ep) eqn:Hv.
   - destruct (lim_cases lim) as [->|Hl].
@@ -230,7 +230,7 @@ Qed.
 
 Lemma call_result cfg lim ep resp :
   options_valid ep = true -> lim <> LimiterFails ->
-  let o := call cfg lim ep resp in
+  let o := call_c cfg lim ep resp in
   match spec_result ep resp with
   | XData l => o_err o = None /\ o_data o = Some l
   | XErr c => class_of (o_err o) = c /\ o_data o = None
@@ -247,7 +247,7 @@ Qed.
 
 Lemma call_no_request cfg lim ep resp :
   options_valid ep = false \/ lim = LimiterFails ->
-  let o := call cfg lim ep resp in
+  let o := call_c cfg lim ep resp in
   (forall m u, ~ In (EvRequest m u) (o_trace o)) /\
   class_of (o_err o) = COther /\ not_found (o_err o) = false /\ o_data o = None.
 Proof.
@@ -259,7 +259,7 @@ Proof.
 Qed.
 
 Lemma not_found_iff cfg lim ep resp :
-  not_found (o_err (call cfg lim ep resp)) = true <->
+  not_found (o_err (call_c cfg lim ep resp)) = true <->
   (options_valid ep = true /\ lim <> LimiterFails /\ r_status resp = 404).
 Proof.
   destruct (options_valid ep) eqn:Hv.
@@ -277,7 +277,7 @@ Qed.
 
 Lemma non_200_no_data cfg lim ep resp :
   r_status resp <> 200 ->
-  let o := call cfg lim ep resp in o_data o = None /\ o_err o <> None.
+  let o := call_c cfg lim ep resp in o_data o = None /\ o_err o <> None.
 Proof.
   intros Hs. cbv zeta. destruct (options_valid ep) eqn:Hv.
   - destruct (lim_cases lim) as [->|Hl].
@@ -291,7 +291,7 @@ Qed.
    document holds *)
 Lemma expect_one_counts cfg lim ep els :
   options_valid ep = true -> lim <> LimiterFails -> expect_one ep = true ->
-  let o := call cfg lim ep {| r_status := 200; r_body := BOsm els |} in
+  let o := call_c cfg lim ep {| r_status := 200; r_body := BOsm els |} in
   exists k, shape_of ep = One k /\
   ((count_kind k els = 1 ->
       exists id, filter (fun e => fst e =? k) els = [(k, id)] /\ o_err o = None /\ o_data o = Some [(k, id)])
@@ -316,10 +316,10 @@ Qed.
 Definition ok200 (b : body) : response := {| r_status := 200; r_body := b |}.
 
 (* list calls (Nodes/Ways/Relations, *History, NodeWays, *Relations, Notes, NotesSearch): all
-   elements of the call's kind, in document order, nothing else; an empty list is not an error *)
+   elements of the call_c's kind, in document order, nothing else; an empty list is not an error *)
 Lemma many_returns_kind cfg lim ep k els :
   options_valid ep = true -> lim <> LimiterFails -> shape_of ep = Many k ->
-  let o := call cfg lim ep (ok200 (BOsm els)) in
+  let o := call_c cfg lim ep (ok200 (BOsm els)) in
   o_err o = None /\ o_data o = Some (filter (fun e => fst e =? k) els).
 Proof.
   intros Hv Hl Hs. pose proof (call_result cfg lim ep (ok200 (BOsm els)) Hv Hl) as Hr.
@@ -330,7 +330,7 @@ Qed.
 (* WayFull / RelationFull / Map: the whole document, grouped by kind *)
 Lemma whole_returns_document cfg lim ep els :
   options_valid ep = true -> lim <> LimiterFails -> shape_of ep = Whole ->
-  let o := call cfg lim ep (ok200 (BOsm els)) in
+  let o := call_c cfg lim ep (ok200 (BOsm els)) in
   o_err o = None /\ o_data o = Some (by_kind els).
 Proof.
   intros Hv Hl Hs. pose proof (call_result cfg lim ep (ok200 (BOsm els)) Hv Hl) as Hr.
@@ -342,7 +342,7 @@ Qed.
    osmChange document; no element-count condition (an empty change is a valid result) *)
 Lemma download_returns_sections cfg lim id c m d :
   lim <> LimiterFails ->
-  let o := call cfg lim (ChangesetDownload id) (ok200 (BChange c m d)) in
+  let o := call_c cfg lim (ChangesetDownload id) (ok200 (BChange c m d)) in
   o_err o = None /\ o_data o = Some (tagged 1 c ++ tagged 2 m ++ tagged 3 d).
 Proof.
   intros Hl. exact (call_result cfg lim (ChangesetDownload id) (ok200 (BChange c m d)) eq_refl Hl).
@@ -350,13 +350,13 @@ Qed.
 
 Lemma download_of_osm_document_is_empty cfg lim id els :
   lim <> LimiterFails ->
-  let o := call cfg lim (ChangesetDownload id) (ok200 (BOsm els)) in
+  let o := call_c cfg lim (ChangesetDownload id) (ok200 (BOsm els)) in
   o_err o = None /\ o_data o = Some [].
 Proof.
   intros Hl. exact (call_result cfg lim (ChangesetDownload id) (ok200 (BOsm els)) eq_refl Hl).
 Qed.
 
-(* the shape of each call, as a table *)
+(* the shape of each call_c, as a table *)
 Lemma shape_table ep :
   shape_of ep =
   match ep with
@@ -400,18 +400,18 @@ Qed.
 
 Lemma call_as_finish cfg ep m r :
   options_valid ep = true -> find_method (method_name ep) = Some m ->
-  call cfg NoLimiter ep r =
+  call_c cfg NoLimiter ep r =
   finish m [request_event cfg ep] (fst (after_response (m_target m) r)) (snd (after_response (m_target m) r)).
 Proof.
-  intros Hv Hm. unfold call. rewrite (url_of_explicit cfg ep Hv), Hm.
-  unfold get_from_api, after_response, finish, request_event.
+  intros Hv Hm. unfold call_c. rewrite (url_of_explicit cfg ep Hv), Hm.
+  unfold get_from_api_c, after_response, finish, request_event.
   destruct (status_error (r_status r)); [reflexivity|].
   destruct (decode (m_target m) (r_body r)); reflexivity.
 Qed.
 
 Definition get (u : str) : event := EvRequest "GET" u.
 
-(* the trace of a call in any world *)
+(* the trace of a call_c in any world *)
 Definition world_trace (cfg : str) (w : world) (ep : endpoint) : list event :=
   (if waits w ep then [EvWait] else []) ++
   (if permitted w ep then map get (explicit_url cfg ep :: spec_followed w) else []).
@@ -441,37 +441,37 @@ Proof. reflexivity. Qed.
 Lemma firstn_short {A} n (l : list A) : (List.length l <= n)%nat -> firstn n l = l.
 Proof. apply firstn_all2. Qed.
 
-(* a call in a world = the plain call on the answer net/http hands back, with the world's trace;
+(* a call_c in a world = the plain call_c on the answer net/http hands back, with the world's trace;
    or an ordinary error when net/http hands back an error or Wait fails *)
 Lemma call_w_decompose cfg w ep :
   options_valid ep = true ->
-  let o := call_w cfg w ep in
+  let o := call_wc cfg w ep in
   o_bad o = false /\ o_panic o = false /\ o_trace o = world_trace cfg w ep /\
   (permitted w ep = false -> o_err o = Some ""%string /\ o_data o = None) /\
   (permitted w ep = true ->
      match snd (client_do w (explicit_url cfg ep)) with
      | TErr => o_err o = Some ""%string /\ o_data o = None
-     | TResp r => o_err o = o_err (call cfg NoLimiter ep r) /\ o_data o = o_data (call cfg NoLimiter ep r)
+     | TResp r => o_err o = o_err (call_c cfg NoLimiter ep r) /\ o_data o = o_data (call_c cfg NoLimiter ep r)
      end).
 Proof.
   intros Hv. cbv zeta.
   destruct (method_matches ep) as [m [Hm _]].
-  assert (Hcall : forall r, o_bad (call cfg NoLimiter ep r) = false /\ o_panic (call cfg NoLimiter ep r) = false)
+  assert (Hcall : forall r, o_bad (call_c cfg NoLimiter ep r) = false /\ o_panic (call_c cfg NoLimiter ep r) = false)
     by (intros r; apply call_covered).
   assert (Hfin : forall tr r,
     let e := fst (after_response (m_target m) r) in let d := snd (after_response (m_target m) r) in
     o_bad (finish m tr e d) = false /\ o_panic (finish m tr e d) = false /\
     o_trace (finish m tr e d) = tr /\
-    o_err (finish m tr e d) = o_err (call cfg NoLimiter ep r) /\
-    o_data (finish m tr e d) = o_data (call cfg NoLimiter ep r)).
+    o_err (finish m tr e d) = o_err (call_c cfg NoLimiter ep r) /\
+    o_data (finish m tr e d) = o_data (call_c cfg NoLimiter ep r)).
   { intros tr r. cbv zeta. destruct (Hcall r) as [Hb Hp].
     rewrite (call_as_finish cfg ep m r Hv Hm) in *.
     destruct (finish_fields m tr [request_event cfg ep]
                 (fst (after_response (m_target m) r)) (snd (after_response (m_target m) r)))
       as [He [Hd [Hp' [Hb' Ht]]]].
     rewrite Hb', Hp', He, Hd. repeat split; try assumption. apply Ht. rewrite Hb'. exact Hb. }
-  unfold call_w. rewrite (url_of_explicit cfg ep Hv), Hm.
-  unfold get_from_api_w, world_trace, permitted, waits. rewrite Hv. cbn [andb].
+  unfold call_wc. rewrite (url_of_explicit cfg ep Hv), Hm.
+  unfold get_from_api_wc, world_trace, permitted, waits. rewrite Hv. cbn [andb].
   rewrite client_do_cases. unfold spec_followed.
   unfold wait_before_do, wait_error_returns.
   destruct w as [lim cx fol hops hs resp]. cbn [w_lim w_ctx w_follow w_hops w_hop_status w_resp].
@@ -504,16 +504,16 @@ Proof.
       repeat split; try reflexivity; intros; try discriminate; auto.
 Qed.
 
-(* the world without redirects and with a live context is the plain call *)
-Lemma call_w_plain cfg lim ep resp : call_w cfg (plain_world lim resp) ep = call cfg lim ep resp.
+(* the world without redirects and with a live context is the plain call_c *)
+Lemma call_w_plain cfg lim ep resp : call_wc cfg (plain_world lim resp) ep = call_c cfg lim ep resp.
 Proof.
-  unfold call_w, call. destruct (find_method (method_name ep)) as [m|]; [|reflexivity].
+  unfold call_wc, call_c. destruct (find_method (method_name ep)) as [m|]; [|reflexivity].
   destruct (url_of cfg ep) as [u| |]; reflexivity.
 Qed.
 
 Lemma call_w_result cfg w ep :
   options_valid ep = true -> permitted w ep = true -> w_hop_status w <> 200 ->
-  let o := call_w cfg w ep in
+  let o := call_wc cfg w ep in
   match spec_result_w w ep with
   | XData l => o_err o = None /\ o_data o = Some l
   | XErr c => class_of (o_err o) = c /\ o_data o = None
@@ -524,8 +524,8 @@ Proof.
   rewrite client_do_cases in Hr. unfold spec_result_w.
   assert (Hplain : forall r,
     match spec_result ep r with
-    | XData l => o_err (call cfg NoLimiter ep r) = None /\ o_data (call cfg NoLimiter ep r) = Some l
-    | XErr c => class_of (o_err (call cfg NoLimiter ep r)) = c /\ o_data (call cfg NoLimiter ep r) = None
+    | XData l => o_err (call_c cfg NoLimiter ep r) = None /\ o_data (call_c cfg NoLimiter ep r) = Some l
+    | XErr c => class_of (o_err (call_c cfg NoLimiter ep r)) = c /\ o_data (call_c cfg NoLimiter ep r) = None
     end) by (intros r; apply (call_result cfg NoLimiter ep r Hv); discriminate).
   destruct (w_ctx w) eqn:Ec.
   - destruct (w_hops w) as [|h hops].
@@ -545,7 +545,7 @@ Qed.
 
 Lemma call_w_refused cfg w ep :
   options_valid ep = true -> permitted w ep = false ->
-  let o := call_w cfg w ep in
+  let o := call_wc cfg w ep in
   (forall m u, ~ In (EvRequest m u) (o_trace o)) /\
   class_of (o_err o) = COther /\ not_found (o_err o) = false /\ o_data o = None.
 Proof.
@@ -555,3 +555,165 @@ Proof.
   repeat split; try reflexivity.
   intros m u Hin. destruct (waits w ep); [destruct Hin as [E|[]]; discriminate|destruct Hin].
 Qed.
+
+(* ---------- the interpreter of the generated effect sequence equals the closed forms ----------
+
+   These equations are the obligations that tie every statement about [call] / [call_w] to the
+   sequence of effectful calls the translator read out of getFromAPI: with another sequence
+   (a second client.Do, Wait after Do, a missing error return ...) they no longer hold. *)
+
+Lemma interp_closed w url target :
+  get_from_api_w false w url target = get_from_api_wc w url target.
+Proof.
+  unfold get_from_api_w, get_from_api_wc, api_steps, client_do, after_response,
+    wait_before_do, wait_error_returns.
+  destruct w as [lim cx fol hops hs resp].
+  destruct lim; destruct cx; destruct hops as [|h hops]; destruct fol;
+    cbn -[Z.of_nat Z.leb List.length status_error decode];
+    repeat (match goal with
+            | |- context [Z.of_nat ?n <=? 9] => destruct (Z.of_nat n <=? 9)
+            | |- context [status_error ?c] => destruct (status_error c)
+            | |- context [decode ?t ?b] => destruct (decode t b)
+            end; cbn -[Z.of_nat Z.leb List.length status_error decode]);
+    reflexivity.
+Qed.
+
+(* a URL the client refuses: the limiter (if any) has been waited on, nothing is sent *)
+Lemma interp_refused w url target :
+  get_from_api_w true w url target =
+  ((match w_lim w with NoLimiter => [] | _ => [EvWait] end), Some ""%string, None).
+Proof.
+  unfold get_from_api_w, api_steps. destruct w as [lim cx fol hops hs resp].
+  destruct lim; destruct cx; reflexivity.
+Qed.
+
+Lemma call_w_is_closed cfg w ep : base_wf cfg = true -> call_w cfg w ep = call_wc cfg w ep.
+Proof.
+  intros Hb. unfold call_w, call_wc. rewrite (base_wf_not_refused cfg Hb).
+  destruct (find_method (method_name ep)) as [m|]; [|reflexivity].
+  destruct (url_of cfg ep) as [u| |]; try reflexivity.
+  rewrite interp_closed. reflexivity.
+Qed.
+
+Lemma call_is_closed cfg lim ep resp : base_wf cfg = true -> call cfg lim ep resp = call_c cfg lim ep resp.
+Proof. intros Hb. unfold call. rewrite (call_w_is_closed cfg _ ep Hb). apply call_w_plain. Qed.
+
+(* a base the client refuses (no http scheme, control character, broken escape, space in the
+   host): the limiter, if any, has been asked; nothing is sent; an ordinary error *)
+Lemma call_w_unusable_base cfg w ep :
+  url_refused (base_url cfg) = true -> options_valid ep = true ->
+  call_w cfg w ep = other_error (match w_lim w with NoLimiter => [] | _ => [EvWait] end).
+Proof.
+  intros Hr Hv. unfold call_w. rewrite Hr, (url_of_explicit cfg ep Hv).
+  destruct (find_method_some ep) as [m ->]. rewrite interp_refused. reflexivity.
+Qed.
+
+(* ---------- the statements, over the interpreted call ([Model.call], [Model.call_w]) ---------- *)
+
+Ltac to_closed :=
+  cbv zeta;
+  repeat match goal with
+         | Hb : base_wf ?cfg = true |- context [call ?cfg ?lim ?ep ?resp] =>
+             rewrite (call_is_closed cfg lim ep resp Hb)
+         | Hb : base_wf ?cfg = true |- context [call_w ?cfg ?w ?ep] =>
+             rewrite (call_w_is_closed cfg w ep Hb)
+         end.
+
+Lemma i_call_trace cfg lim ep resp :
+  base_wf cfg = true -> options_valid ep = true ->
+  o_trace (call cfg lim ep resp) = spec_trace cfg lim ep.
+Proof. intros Hb Hv. to_closed. apply call_trace, Hv. Qed.
+
+Lemma i_call_invalid cfg lim ep resp :
+  base_wf cfg = true -> options_valid ep = false -> o_trace (call cfg lim ep resp) = [].
+Proof. intros Hb Hv. to_closed. rewrite (call_invalid cfg lim ep resp Hv). reflexivity. Qed.
+
+Lemma i_call_no_request cfg lim ep resp :
+  base_wf cfg = true -> options_valid ep = false \/ lim = LimiterFails ->
+  let o := call cfg lim ep resp in
+  (forall m u, ~ In (EvRequest m u) (o_trace o)) /\
+  class_of (o_err o) = COther /\ not_found (o_err o) = false /\ o_data o = None.
+Proof. intros Hb H. to_closed. apply (call_no_request cfg lim ep resp H). Qed.
+
+Lemma i_not_found_iff cfg lim ep resp :
+  base_wf cfg = true ->
+  (not_found (o_err (call cfg lim ep resp)) = true <->
+   (options_valid ep = true /\ lim <> LimiterFails /\ r_status resp = 404)).
+Proof. intros Hb. to_closed. apply not_found_iff. Qed.
+
+Lemma i_non_200_no_data cfg lim ep resp :
+  base_wf cfg = true -> r_status resp <> 200 ->
+  let o := call cfg lim ep resp in o_data o = None /\ o_err o <> None.
+Proof. intros Hb Hs. to_closed. apply (non_200_no_data cfg lim ep resp Hs). Qed.
+
+Lemma i_call_result cfg lim ep resp :
+  base_wf cfg = true -> options_valid ep = true -> lim <> LimiterFails ->
+  let o := call cfg lim ep resp in
+  match spec_result ep resp with
+  | XData l => o_err o = None /\ o_data o = Some l
+  | XErr c => class_of (o_err o) = c /\ o_data o = None
+  end.
+Proof. intros Hb Hv Hl. to_closed. apply (call_result cfg lim ep resp Hv Hl). Qed.
+
+Lemma i_expect_one_counts cfg lim ep els :
+  base_wf cfg = true -> options_valid ep = true -> lim <> LimiterFails -> expect_one ep = true ->
+  let o := call cfg lim ep {| r_status := 200; r_body := BOsm els |} in
+  exists k, shape_of ep = One k /\
+  ((count_kind k els = 1 ->
+      exists id, filter (fun e => fst e =? k) els = [(k, id)] /\ o_err o = None /\ o_data o = Some [(k, id)])
+   /\ (count_kind k els <> 1 -> class_of (o_err o) = COther /\ o_data o = None)).
+Proof. intros Hb Hv Hl H1. to_closed. apply (expect_one_counts cfg lim ep els Hv Hl H1). Qed.
+
+Lemma i_call_w_covered cfg w ep :
+  base_wf cfg = true -> o_bad (call_w cfg w ep) = false /\ o_panic (call_w cfg w ep) = false.
+Proof.
+  intros Hb. to_closed. destruct (options_valid ep) eqn:Hv.
+  - destruct (call_w_decompose cfg w ep Hv) as [A [B _]]. split; assumption.
+  - unfold call_wc. rewrite (url_of_reject cfg ep Hv). destruct (find_method_some ep) as [m ->].
+    split; reflexivity.
+Qed.
+
+Lemma i_many_returns_kind cfg lim ep k els :
+  base_wf cfg = true -> options_valid ep = true -> lim <> LimiterFails -> shape_of ep = Many k ->
+  let o := call cfg lim ep (ok200 (BOsm els)) in
+  o_err o = None /\ o_data o = Some (filter (fun e => fst e =? k) els).
+Proof. intros Hb Hv Hl Hs. to_closed. apply (many_returns_kind cfg lim ep k els Hv Hl Hs). Qed.
+
+Lemma i_whole_returns_document cfg lim ep els :
+  base_wf cfg = true -> options_valid ep = true -> lim <> LimiterFails -> shape_of ep = Whole ->
+  let o := call cfg lim ep (ok200 (BOsm els)) in
+  o_err o = None /\ o_data o = Some (by_kind els).
+Proof. intros Hb Hv Hl Hs. to_closed. apply (whole_returns_document cfg lim ep els Hv Hl Hs). Qed.
+
+Lemma i_download cfg lim id c m d els :
+  base_wf cfg = true -> lim <> LimiterFails ->
+  (let o := call cfg lim (ChangesetDownload id) (ok200 (BChange c m d)) in
+   o_err o = None /\ o_data o = Some (tagged 1 c ++ tagged 2 m ++ tagged 3 d)) /\
+  (let o := call cfg lim (ChangesetDownload id) (ok200 (BOsm els)) in
+   o_err o = None /\ o_data o = Some []).
+Proof.
+  intros Hb Hl. split; to_closed.
+  - apply (download_returns_sections cfg lim id c m d Hl).
+  - apply (download_of_osm_document_is_empty cfg lim id els Hl).
+Qed.
+
+Lemma i_world_trace cfg w ep :
+  base_wf cfg = true -> options_valid ep = true ->
+  o_trace (call_w cfg w ep) = world_trace cfg w ep.
+Proof. intros Hb Hv. to_closed. exact (proj1 (proj2 (proj2 (call_w_decompose cfg w ep Hv)))). Qed.
+
+Lemma i_world_result cfg w ep :
+  base_wf cfg = true -> options_valid ep = true -> permitted w ep = true -> w_hop_status w <> 200 ->
+  let o := call_w cfg w ep in
+  match spec_result_w w ep with
+  | XData l => o_err o = None /\ o_data o = Some l
+  | XErr c => class_of (o_err o) = c /\ o_data o = None
+  end.
+Proof. intros Hb Hv Hp Hh. to_closed. apply (call_w_result cfg w ep Hv Hp Hh). Qed.
+
+Lemma i_world_refused cfg w ep :
+  base_wf cfg = true -> options_valid ep = true -> permitted w ep = false ->
+  let o := call_w cfg w ep in
+  (forall m u, ~ In (EvRequest m u) (o_trace o)) /\
+  class_of (o_err o) = COther /\ not_found (o_err o) = false /\ o_data o = None.
+Proof. intros Hb Hv Hp. to_closed. apply (call_w_refused cfg w ep Hv Hp). Qed.
